@@ -221,6 +221,7 @@ pub fn yield_here(site: &'static str, boundary: bool) {
 }
 
 /// The callback installed into yuvxyb's `verif-hooks` yield points.
+#[cfg_attr(not(feature = "hooks"), allow(dead_code))]
 pub fn library_hook(site: &'static str) {
     yield_here(site, false);
 }
